@@ -165,6 +165,9 @@ func newPoolEnv(nLoggers int) *poolEnv {
 		default:
 			c.SetColorMode(false)
 		}
+		if i%3 != 1 {
+			c.SetContextKeys(poolCtxKey) // the value a call passes in its context becomes an attribute of its record
+		}
 		if i%2 == 1 {
 			c.SetAttrs(slog.Int(fmt.Sprintf("la%d", i), i), e.shared)
 		} else {
@@ -235,8 +238,11 @@ func (e *poolEnv) issue(c *poolCall) {
 		l.WriteThru(context.Background(), c.Sev, e.ts, 0, c.Msg, attrs)
 		return
 	}
-	l.LogAttrs(context.Background(), c.Sev, c.Msg, e.args(c)...)
+	// every call carries its own value in the context; loggers with registered context keys print it
+	l.LogAttrs(context.WithValue(context.Background(), poolCtxKey, fmt.Sprintf("req%06d", c.ID)), c.Sev, c.Msg, e.args(c)...)
 }
+
+const poolCtxKey = "reqid"
 
 var poolReTime = regexp.MustCompile(`\d{2}:\d{2}:\d{2}\.\d{6}(?:Z|[+-]\d{2}:\d{2})`)
 
@@ -630,6 +636,9 @@ func (e *histEnv) emit(id int, viaVerb bool) {
 	}
 	var pcs [1]uintptr
 	runtime.Callers(1, pcs[:])
+	if shape%3 == 2 {
+		pcs[0] = 0 // a record without a call site (what the adapters pass when the source is unknown)
+	}
 	l.WriteThru(context.Background(), sev, ts, pcs[0], msg, attrs)
 }
 
